@@ -493,6 +493,17 @@ def impl_labels(case, count: int) -> Tuple[List[str], List[str]]:
     return out, pl
 
 
+def impl_labels_strict(case, count: int) -> Tuple[List[str], List[str]]:
+    """impl_labels with settings.STRICT = True (restored afterwards)."""
+    from pdfminer import settings
+    old = settings.STRICT
+    settings.STRICT = True
+    try:
+        return impl_labels(case, count)
+    finally:
+        settings.STRICT = old
+
+
 def canon_obj(o) -> str:
     from pdfminer.pdftypes import PDFObjRef
     from pdfminer.psparser import PSLiteral
@@ -1178,6 +1189,15 @@ def shrink_labels(case, fails) -> Dict[str, Any]:
                 c2 = dict(cur, tree=dict(cur["tree"], nums=n2))
                 if fails(c2):
                     cur, nums = c2, n2
+    else:
+        # the shape matters: one leaf per entry under the root, then fewer entries
+        def wide(es):
+            return {"nums": None, "ind": False,
+                    "kids": [{"nums": [[k, dict(v, ind=False, type=False, hexstr=False)]], "kids": None, "ind": False}
+                             for k, v in es]}
+        if fails(dict(cur, tree=wide(flat))):
+            keep = C.ddmin([list(x) for x in flat], lambda sub: fails(dict(cur, tree=wide(sub))), 60)
+            cur = dict(cur, tree=wide(keep))
     # fewer pages
     lo = 1
     while lo < cur["npages"] and not fails(dict(cur, npages=lo)):
@@ -1222,6 +1242,8 @@ def eval_labels(ctx: C.Ctx, batch: Batch, case, wild: bool, shrink: bool = True)
     if case.get("tree") is not None:
         batch.add("spec.labels %d %s" % (count, sx_numtree(case["tree"])), "spec.labels", case,
                   "outside-domain" if exp is None else "|".join(exp), "spec")
+    if case.get("tree") is not None:
+        eval_labels_strict(ctx, batch, case, wild, exp, count)
     if exp is not None and not wild:
         if impl != exp:
             def fails(c):
@@ -1237,6 +1259,38 @@ def eval_labels(ctx: C.Ctx, batch: Batch, case, wild: bool, shrink: bool = True)
             e2 = spec_labels(small, cnt)
             ctx.fail(C.Failure("page label differs from ISO 32000-1 12.4.2 (prefix ++ numeral(style, St + i - start))",
                                small, e2, i2, alpha_only_tags(small, cnt, i2, e2)))
+
+
+def eval_labels_strict(ctx: C.Ctx, batch: Batch, case, wild: bool, exp: Optional[List[str]], count: int) -> None:
+    """settings.STRICT = True: a conforming tree must give the same labels as in the default mode."""
+    flat = flatten_num(case["tree"])
+    if any(ld.get("junk") for _, ld in flat):
+        return      # PDFTypeError from dict_value: type faults are C13's subject
+    impl, pl = impl_labels_strict(case, count)
+    ctx.branch("labels-strict:" + (impl[-1] if impl and impl[-1].startswith("E:") else "ok"))
+    batch.add("labels.strict %d %s" % (count, sx_numtree(case["tree"])), "labels.strict", case, "|".join(impl), "model")
+    if exp is None or wild:
+        return
+    npages = case["npages"]
+    if impl == exp and pl != exp[:npages]:
+        ctx.fail(C.Failure("PDFPage.label is not the label of that page index (settings.STRICT = True)",
+                           case, exp[:npages], pl, {"component": "pagelabel-attach", "mode": "strict"}))
+    if impl != exp:
+        def fails(c):
+            try:
+                cnt = c["npages"] + c.get("extra", 3)
+                e = spec_labels(c, cnt)
+                return e is not None and impl_labels_strict(c, cnt)[0] != e
+            except Exception:  # noqa: BLE001
+                return False
+        small = shrink_labels(case, fails)
+        cnt = small["npages"] + small.get("extra", 3)
+        i2, _ = impl_labels_strict(small, cnt)
+        e2 = spec_labels(small, cnt)
+        tags = alpha_only_tags(small, cnt, i2, e2)
+        tags["mode"] = "strict"
+        ctx.fail(C.Failure("with settings.STRICT = True a conforming page-label tree does not give the labels of "
+                           "ISO 32000-1 12.4.2", dict(small, strict=True), e2, i2, tags))
 
 
 def tree_depth(node) -> int:
